@@ -281,16 +281,18 @@ def child_reference(case, op, obj_spec, params, seed_rng):
     install_jit_seam()
     install_clock()
     objs = {}
+    # The reference object is CONSTRUCTED with the parameters that were set for the history object (not
+    # constructed with the original arguments and then updated), so that a parameter update that fails to
+    # reach part of the object (e.g. a smoother) cannot hide in both executions alike.
+    if obj_spec is not None and obj_spec["cls"] in ("Jacobi", "MG") and params is not None:
+        obj_spec = {**obj_spec, "dim": params["dim"], "mass": params["mass"], "diff": params["diff"]}
     if op.get("obj"):
         objs[op["obj"]] = build_object(obj_spec)
         if obj_spec["cls"] == "W1":
             objs[op["obj"] + "#cfg"] = obj_spec["cfg"]
-        elif obj_spec["cls"] in ("Jacobi", "MG"):
-            apply_params(objs[op["obj"]], params)
     s = op.get("solver", "default")
     if s != "default":
         objs[s] = build_object(obj_spec)
-        apply_params(objs[s], params)
     np.random.seed(seed_rng % 2**32)
     try:
         return exec_op(op, objs), None
@@ -423,6 +425,8 @@ class C16Engine(Engine):
                    "pair": {"kind": "dense", "id": 0}, "tol_residual": 1e-300, "tol_increment": 1e-300, "tol_distance": 1e-300}
             if cfg["aa_depth"] == 0:
                 cfg["aa_restart"] = None
+            if r.random() < 0.5:
+                cfg["L"] = r.choice([0.5, 2.0, 10.0])
             if cfg["method"] == "bregman-adaptive":
                 cfg["update_every"] = r.choice([1, 2])
             if ls == "amg":
